@@ -312,6 +312,10 @@ impl Polynomial<Cmplx> {
         const EPS: f64 = f64::EPSILON;
         let frac: [f64; MR + 1] = [ 0.0,0.5,0.25,0.75,0.13,0.38,0.62,0.88,1.0 ];
         let m = a.size() - 1;
+        // Cauchy: every root lies in the disc |z| <= 1 + max |a_j / a_m|
+        let mut bound: f64 = 0.0;
+        for j in 0..m { bound = bound.max( ( a[j] / a[m] ).abs() ); }
+        bound += 1.0;
         for iter in 1..MAXIT {
             *iterations = iter;
             let mut b = a[m];
@@ -336,11 +340,14 @@ impl Polynomial<Cmplx> {
             let abp = gp.abs();
             let abm = gm.abs();
             if abp < abm { gp = gm; }
-            let dx = if f64::max( abp, abm ) > 0.0 { 
+            let mut dx = if f64::max( abp, abm ) > 0.0 { 
                 Cmplx::new( m as f64, 0.0 ) / gp
             } else {
                 Cmplx::polar( 1.0 + abx, iter as f64 )
             };
+            // A step that leaves the disc containing all the roots (p' and p'' nearly zero at x, as for
+            // x^8 - 1 + O(1e-9) at x = 0) only starts a huge/tiny oscillation: use the fallback step
+            if ( *x - dx ).abs() > bound { dx = Cmplx::polar( 1.0 + abx, iter as f64 ); }
             if !( dx.real.is_finite() && dx.imag.is_finite() ) { return; } // cannot improve x any further
             let x1 = *x - dx;
             if *x == x1 { return; }
